@@ -220,6 +220,8 @@ var c10ManyDocs = []string{
 	`{ ...F faa { x } q(xaa: 1, xa: 2) e(v: VAA) i(v: {iaa: 1, ia: 2}) q2: q @daa } fragment F on Taa { x }`,
 	`{ ...G } fragment G on Ta { x }`,
 	`{ ... on Tabb { x } fabb { x } }`,
+	// a near miss of a meta field before the meta field itself, on one type
+	`{ fab { __typenam __typename } fac { __typename __typenam } __typenam __typename }`,
 }
 
 // c10Template: the rule (or message template) of the first error that differs.
@@ -410,6 +412,23 @@ func runC10(c *explore.Ctx) {
 			}
 			s.States++
 			c10Schema(c, s, kitInput{Items: append([]int{}, items...)})
+			// chosen combinations beyond the bound: an implementer that omits several ancestors of its interface at once
+			if c.Shard == 0 {
+				find := func(text string) int {
+					for i, it := range gen.KitMenu {
+						if it == text {
+							return i
+						}
+					}
+					panic("C10: no menu item " + text)
+				}
+				r2, r3 := find("interface R2 implements Node & HasNode { id: ID! n: Node }"), find("interface R3 implements R2 & HasNode { id: ID! n: Node }")
+				for _, items := range [][]int{{r2, find("type T2z implements R2 { id: ID! n: Node }")}, {r2, r3, find("type T3z implements R3 { id: ID! n: Node }")}, {r2, r3, find("type T2z implements R2 { id: ID! n: Node }"), find("type T3z implements R3 { id: ID! n: Node }")}} {
+					sort.Ints(items)
+					s.States++
+					c10Schema(c, s, kitInput{Items: items})
+				}
+			}
 		})
 		s.WallS = time.Since(t0).Seconds()
 	}
